@@ -339,3 +339,334 @@ FITER = register(Stream(
     nontrivial=lambda o, obs: True))
 
 WORKLOADS = ["iterfwd", "iterbwd", "citer", "count1", "countN", "twinsN", "ccount", "gp", "gn", "cgp", "nth", "print"]
+
+
+# --------------------------------------------------------------------------------------------
+# calc: calculator::eval<T> on grammar-directed expressions (C16); cli: the primesieve binary
+# --------------------------------------------------------------------------------------------
+CALC_TYPES = {"u64": (0, 2**64 - 1, 64), "i32": (-2**31, 2**31 - 1, 31), "i64": (-2**63, 2**63 - 1, 63)}
+BINOPS = {"|": (4, "L"), "&": (6, "L"), "<<": (9, "L"), ">>": (9, "L"), "+": (10, "L"), "-": (10, "L"),
+          "*": (20, "L"), "/": (20, "L"), "%": (20, "L"), "^": (30, "R"), "**": (30, "R"), "e": (40, "R"), "E": (40, "R")}
+
+class Reject(Exception):
+    pass
+class Unknown(Exception):
+    pass
+
+def exact_eval(ast, ty):
+    """exact integer value of the AST; Reject if the value or ANY intermediate result is outside T,
+    on division by zero or an invalid shift count; Unknown where 'exact integer' is not defined"""
+    mn, mx, digits = CALC_TYPES[ty]
+    def chk(z):
+        if z < mn or z > mx:
+            raise Reject()
+        return z
+    k = ast[0]
+    if k == "lit":
+        return chk(ast[1])
+    if k == "par":
+        return exact_eval(ast[1], ty)
+    if k == "un":
+        v = exact_eval(ast[2], ty)
+        if ast[1] == "+":
+            return v
+        if ast[1] == "-":
+            return chk(-v)
+        return chk(mx - v if mn == 0 else -v - 1)
+    op = ast[1]
+    a = exact_eval(ast[2], ty)
+    b = exact_eval(ast[3], ty)
+    if op == "|": return chk(a | b)
+    if op == "&": return chk(a & b)
+    if op in ("<<", ">>"):
+        if b < 0 or b >= digits:
+            raise Reject()
+        if op == ">>":
+            return chk(a >> b)
+        if a < 0:
+            raise Reject()
+        return chk(a << b)
+    if op == "+": return chk(a + b)
+    if op == "-": return chk(a - b)
+    if op == "*": return chk(a * b)
+    if op in ("/", "%"):
+        if b == 0:
+            raise Reject()
+        q = abs(a) // abs(b)
+        if (a < 0) != (b < 0):
+            q = -q
+        return chk(q) if op == "/" else chk(a - b * q)
+    if op in ("^", "**"):
+        if b < 0:
+            raise Unknown()
+        if abs(a) >= 2 and b > 70:
+            raise Reject()
+        return chk(a ** b)
+    if op in ("e", "E"):
+        if b < 0:
+            raise Unknown()
+        if b > 30:
+            raise Reject()
+        return chk(a * chk(10 ** b))
+    raise ValueError(op)
+
+def render(ast, r, spaces=True):
+    """minimal parentheses according to precedence / associativity; unary binds tightest"""
+    def sp():
+        return r.choice(["", "", "", " ", "  ", "\t"]) if spaces else ""
+    k = ast[0]
+    if k == "lit":
+        v, style = ast[1], ast[2]
+        if style == "hex":
+            h = format(v, "x")
+            h = "".join(c.upper() if r.random() < 0.3 else c for c in h)
+            return r.choice(["0x", "0X"]) + h
+        if style == "lz":
+            return "0" * r.randrange(1, 4) + str(v)
+        return str(v)
+    if k == "par":
+        return "(" + sp() + render(ast[1], r, spaces) + sp() + ")"
+    if k == "un":
+        c = ast[2]
+        inner = render(c, r, spaces)
+        if c[0] == "bin":
+            inner = "(" + inner + ")"
+        return ast[1] + sp() + inner
+    op, l, rt = ast[1], ast[2], ast[3]
+    p, assoc = BINOPS[op]
+    def side(c, is_left):
+        s = render(c, r, spaces)
+        if c[0] == "bin":
+            cp, _ = BINOPS[c[1]]
+            if cp < p or (cp == p and ((assoc == "R") if is_left else (assoc == "L"))):
+                s = "(" + s + ")"
+        return s
+    ls, rs = side(l, True), side(rt, False)
+    gap = sp()
+    # a hex literal directly followed by e/E would swallow the operator as a hex digit
+    if op in ("e", "E") and gap == "" and _ends_with_hex_lit(l):
+        gap = " "
+    return ls + gap + op + sp() + rs
+
+def _ends_with_hex_lit(a):
+    if a[0] == "lit":
+        return a[2] == "hex"
+    if a[0] == "un":
+        return a[2][0] != "bin" and _ends_with_hex_lit(a[2])
+    if a[0] == "bin":
+        return False if BINOPS[a[1]][0] < 40 else _ends_with_hex_lit(a[3])   # conservative: parenthesised or right operand
+    return False
+
+def gen_ast(r, ty, depth, small):
+    mn, mx, digits = CALC_TYPES[ty]
+    if depth == 0 or r.random() < 0.25:
+        c = r.random()
+        if small or c < 0.45:
+            v = r.choice([0, 1, 2, 3, 5, 7, 10, 16, 63, 64, r.randrange(0, 100)])
+        elif c < 0.6:
+            v = r.choice([2**k for k in range(0, digits + 1)] + [2**digits - 1]) + r.choice([-1, 0, 0, 1])
+            v = max(v, 0)
+        elif c < 0.7:
+            v = mx - r.randrange(0, 3) + r.choice([0, 0, 1, 2])
+        elif c < 0.8:
+            v = 10 ** r.randrange(0, 21)
+        else:
+            v = r.randrange(0, 2 ** r.choice([8, 16, 32, 40, 63, 64, 65]))
+        return ("lit", v, r.choice(["dec", "dec", "dec", "hex", "lz"]))
+    c = r.random()
+    if c < 0.12:
+        return ("un", r.choice(["-", "+", "~", "-"]), gen_ast(r, ty, depth - 1, small))
+    if c < 0.2:
+        return ("par", gen_ast(r, ty, depth - 1, small))
+    op = r.choice(["+", "+", "-", "-", "*", "*", "/", "%", "^", "**", "e", "E", "<<", ">>", "|", "&"])
+    if op in ("^", "**", "e", "E", "<<", ">>"):
+        return ("bin", op, gen_ast(r, ty, depth - 1, small), gen_ast(r, ty, min(depth - 1, 1), True))
+    return ("bin", op, gen_ast(r, ty, depth - 1, small or op == "*" and r.random() < 0.5), gen_ast(r, ty, depth - 1, small))
+
+def hexs(s):
+    return "x" + s.encode("latin-1", "replace").hex()
+
+def calc_expect(ast, ty):
+    try:
+        return "exp=v:%d" % exact_eval(ast, ty)
+    except Reject:
+        return "exp=reject"
+    except Unknown:
+        return "exp=any"
+
+def gen_calc(tier, r):
+    q = tier == "quick"
+    ops = []
+    N = 2500 if q else 40000
+    for i in range(N):
+        ty = r.choice(["u64", "u64", "u64", "i32", "i64"])
+        ast = gen_ast(r, ty, r.choice([1, 2, 2, 3, 3, 4]), r.random() < 0.3)
+        s = render(ast, r)
+        e = calc_expect(ast, ty)
+        ops.append(("grammar-" + ty + "-" + e[4:5], f"calc {ty} {hexs(s)} {e}"))
+    # documented examples and the boundary of 2^64
+    fixed = [("u64", "1e10", 10**10), ("u64", "2^32", 2**32), ("u64", "1e10+2^32", 10**10 + 2**32), ("u64", "0x10", 16),
+             ("u64", "2^64", None), ("u64", "2^64-1", None), ("u64", "2^63+(2^63-1)", 2**64 - 1), ("u64", "18446744073709551615", 2**64 - 1),
+             ("u64", "18446744073709551616", None), ("u64", "0-5", None), ("u64", "1e20", None), ("u64", "0xFFFFFFFFFFFFFFFF", 2**64 - 1),
+             ("u64", "0x10000000000000000", None), ("u64", "2**2**2**2", 65536), ("u64", "10-2-3", 5), ("u64", "2*3+4", 10), ("u64", "2+3*4", 14),
+             ("u64", "2^3^2", 512), ("u64", "100/10/5", 2), ("u64", "7%4*2", 6), ("u64", "1<<4+1", 32), ("u64", "6|1&3", 7), ("u64", "2e3^2", 4000000), ("u64", "2^3e1", 2**30),
+             ("u64", "-0", 0), ("u64", "-1", None), ("u64", "~0", 2**64 - 1), ("u64", "5/0", None), ("u64", "5%0", None), ("u64", "1<<64", None),
+             ("u64", "1<<63", 2**63), ("u64", "2<<63", None), ("u64", "(2^64-1)", None), ("u64", "4294967296*4294967296", None),
+             ("u64", "4294967295*4294967297", 2**64 - 1), ("i32", "-(2**2**2**2)", -65536), ("i32", "(0 + ~(0xDF234 & 1000) *3) /-2", 817),
+             ("i32", "2147483647+1", None), ("i32", "-2147483647-1", -2**31), ("i32", "-2147483648", None), ("i32", "(-2147483647-1)/-1", None),
+             ("i32", "(-2147483647-1)%-1", 0), ("i32", "65536*32768", None), ("i32", "-65536*32768", -2**31), ("i64", "2^62*2", None),
+             ("i64", "-(2^62)*2", -2**63), ("i64", "9223372036854775807", 2**63 - 1)]
+    for ty, s, v in fixed:
+        ops.append(("fixed", f"calc {ty} {hexs(s)} {'exp=v:%d' % v if v is not None else 'exp=reject'}"))
+    for s in ["", " ", "(", ")", "1+", "+", "1 2", "0x", "0xg", "1<2", "1>2", "1<<", "(1", "1)", "()", "a", "1ee2", "1e", "e1", "--", "1//2",
+              "1 + + 2 )", "2^^3", "1,000", "1.5", "0b101", "１", "1_000", "$1", "1;2", "1=1", "!1", "\x01"]:
+        ops.append(("malformed-fixed", f"calc u64 {hexs(s)} exp=reject"))
+    alphabet = "0123456789abcdefxXeE()+-*/%^&|<>~ \t.,g"
+    for i in range(600 if q else 8000):
+        ty = r.choice(["u64", "u64", "i32"])
+        s = render(gen_ast(r, ty, r.choice([1, 2, 3]), True), r)
+        l = list(s)
+        for _ in range(r.choice([1, 1, 2, 3])):
+            c = r.random()
+            pos = r.randrange(0, len(l) + 1)
+            if c < 0.35 and l: del l[min(pos, len(l) - 1)]
+            elif c < 0.7: l.insert(pos, r.choice(alphabet))
+            elif l: l[min(pos, len(l) - 1)] = r.choice(alphabet)
+        ops.append(("mutated", f"calc {ty} {hexs(''.join(l))} exp=any"))
+    return ops
+
+CALC = register(Stream(
+    "calc", gen_calc,
+    rule=("cases = calculator::eval<uint64_t|int|int64_t>(s) on (a) expressions rendered with minimal parentheses, random "
+          "extra parentheses, spaces, hex/decimal/leading-zero literals from random ASTs over all 13 operators and the 3 unary "
+          "operators; the generator evaluates the AST exactly (big integers, every intermediate result range-checked): "
+          "exp=v must be returned exactly, exp=reject must be rejected; (b) the documented examples and the 2^64 / 2^31 / "
+          "2^63 boundaries; (c) malformed strings; (d) random character mutations of valid expressions (model vs "
+          "implementation only); the Lean model Calc.eval must agree on value / error class for every string; "
+          "non-trivial = the string is accepted or rejected for overflow / division by zero; distinct by the full line"),
+    nontrivial=lambda o, obs: "err=syntax" not in obs))
+
+def expr_for(r, T):
+    """an expression whose exact value is T (0 <= T < 2^64) and whose intermediates fit"""
+    forms = [str(T), "0x%x" % T, "%d+%d" % (T - min(T, 7), min(T, 7))]
+    if T + 9 < 2**64: forms.append("%d-9" % (T + 9))
+    if T > 0:
+        b = T.bit_length() - 1
+        forms.append("2^%d+%d" % (b, T - 2**b))
+        forms.append("(1<<%d)+%d" % (b, T - 2**b))
+        d = len(str(T)) - 1
+        forms.append("1e%d*%d+%d" % (d, T // 10**d, T % 10**d))
+        qq = r.choice([2, 3, 7, 1000])
+        forms.append("%d*%d+%d" % (T // qq, qq, T % qq))
+        forms.append(" ( %d ) " % T)
+        if T * 2 < 2**64: forms.append("%d/2" % (T * 2))
+    if T % 10**6 == 0 and T > 0:
+        forms.append("%de6" % (T // 10**6))
+    return r.choice(forms)
+
+def gen_cli(tier, r):
+    q = tier == "quick"
+    ops = []
+    def add(label, args, exp):
+        ops.append((label, f"cli {hexs(chr(0x1f).join(args))} {exp}"))
+    def interval():
+        # runs above 1e15 take seconds each in the sanitized binary (sieving primes up to sqrt): keep them few
+        if r.random() < (0.05 if q else 0.12):
+            base = r.choice([10**r.randrange(15, 19) + r.randrange(0, 1000), 2**64 - 1 - r.randrange(0, 5000), MAXPRIME64 - r.randrange(0, 300)])
+        else:
+            base = r.choice([0, 0, r.randrange(0, 100), 10**r.randrange(2, 14) + r.randrange(0, 1000), 2**32 - 500])
+        w = r.choice([0, 1, 10, 100, 1000, 30000])
+        return base, min(UMAX, base + w)
+    cnt_spell = [(["-c"], 1), (["--count"], 1), (["-c1"], 1), (["-c2"], 2), (["--count=3"], 4), (["-c123456"], 63), (["--count=26"], 34),
+                 (["-c", "-c4"], 9), (["--count=5", "-c6"], 48), (["-c12", "--count=2"], 3), ([], 0)]
+    for i in range(140 if q else 1600):
+        a, b = interval()
+        spell, mask = r.choice(cnt_spell)
+        args, quiet, pk = [], False, "-"
+        form = r.random()
+        if form < 0.35:
+            a = 0; b = r.choice([0, 1, 2, 5, 6, 7, 10, 11, 17, 100, 1000, r.randrange(0, 200000), 10**6]); nums = [expr_for(r, b)]
+        elif form < 0.8:
+            nums = [expr_for(r, a), expr_for(r, b)]
+        else:
+            d = b - a
+            nums = [expr_for(r, a), r.choice(["-d", "--dist"]), expr_for(r, d)] if r.random() < 0.5 else [expr_for(r, a), r.choice(["-d%s", "--dist=%s"]) % expr_for(r, d).replace(" ", "")]
+            if not nums[-1][2:3].isdigit() and nums[-1].startswith("-d") and len(nums) == 2 and not nums[-1][2:].lstrip("=")[:1].isdigit():
+                nums = [expr_for(r, a), "--dist=" + str(d)]
+        args += nums
+        opts = [[x] for x in spell]
+        if r.random() < 0.3 and b - a <= 30000:
+            k = r.randrange(1, 7)
+            opts.append([r.choice(["-p%d" % k, "--print=%d" % k] + (["-p", "--print"] if k == 1 else []))])
+            pk, quiet = str(k - 1), True
+        if r.random() < 0.5:
+            opts.append([r.choice(["-q", "--quiet"])]); quiet = True
+        elif r.random() < 0.8:
+            opts.append(["--no-status"])
+        if r.random() < 0.3: opts.append(r.choice([["-t", str(r.randrange(-2, 40))], ["--threads=%d" % r.randrange(1, 9)], ["-t%d" % r.randrange(1, 5)]]))
+        if r.random() < 0.3: opts.append(r.choice([["-s", str(r.choice([0, 1, 16, 17, 100, 8192, 99999]))], ["--size=%d" % r.choice([16, 33, 256])], ["-s64"]]))
+        if r.random() < 0.1: opts.append(["--time"])
+        r.shuffle(opts)
+        opts = [x for g in opts for x in g]
+        # a bare -c/-p/--count/--print/-S takes a following non-option as its value: keep those last or before an option
+        args2 = args + opts if r.random() < 0.6 else None
+        if args2 is None:
+            args2 = opts + args
+            for j, o in enumerate(args2[:-1]):
+                if o in ("-c", "--count", "-p", "--print") and not args2[j + 1].startswith("-"):
+                    args2 = args + opts
+                    break
+        eff = mask if (mask or pk != "-") else 1
+        add("sieve", args2, f"exp=sieve:{a}:{b}:{eff}:{pk}:{1 if quiet else 0}")
+    # nth prime
+    for i in range(40 if q else 400):
+        n = r.choice([0, 1, 2, 10, 100, 1000, r.randrange(1, 5000)])
+        st = r.choice([None, 0, 1, 100, 10**6, 10**12 + 5, 2**32] + ([UMAX - 100000, MAXPRIME64 - 1, MAXPRIME64, UMAX] if i % 8 == 0 else [10**9, 7]))
+        nums = [expr_for(r, n)] + ([] if st is None else [expr_for(r, st)])
+        opt = r.choice(["-n", "--nthprime", "--nth-prime"])
+        quiet = r.random() < 0.5
+        args = nums + [opt] + (["-q"] if quiet else []) if r.random() < 0.5 else [opt] + nums + (["--quiet"] if quiet else [])
+        add("nth", args, f"exp=nth:{n}:{0 if st is None else st}:{1 if quiet else 0}")
+    # rejected command lines
+    rej = [["--foo"], ["-x"], ["100", "--count=7"], ["100", "-c0"], ["100", "-c17"], ["100", "-p7"], ["100", "--print=0"], ["100", "-t"], ["100", "--threads="],
+           ["100", "-t", "-q"], ["100", "-s"], ["100", "--dist"], ["-5"], ["-1e3"], ["10", "-20"], ["--dist=-5", "10"], ["2^64"], ["2^64-1"], ["0-5"], ["1e20"],
+           ["18446744073709551616"], ["10", "-d", "18446744073709551615"], ["10", "--dist=2^64"], ["1", "-d", "18446744073709551615"],
+           ["-n"], ["-n", "-q"], ["1e18", "-n"], ["461168601842738791", "-n"], ["2^63", "-n"], ["--help", "--version"], ["-n", "100", "--cpu-info"],
+           ["-c"], ["-q"], ["--no-status", "-p"], ["abc"], ["1O0"], ["100", ""], ["", "100"], ["100", "--coun"], ["100", "--count2x"], ["100", "-c2x"],
+           ["1/0"], ["5%0", "10"], ["(10"], ["10)"], ["1<<64"], ["100", "-t", "1e100"], ["100", "-s", "2^31"], ["100", "-t", "abc"], ["-R"], ["--RiemannR-inverse"],
+           ["100", "--timeout=1x"], ["100", "-S", "GPU"], ["100", "--stress-test=FOO"], ["10", "0x"], ["100", "--number"], ["100", "--number=-1"], ["100", "--count=-5"], ["100", "--count=0"], ["100", "-c", "0"], ["100", "-c00"]]
+    for a in rej:
+        add("reject", a, "exp=reject")
+    for i in range(30 if q else 400):
+        a, b = interval()
+        bad = r.choice(["2^64", "1e20", "0-%d" % r.randrange(1, 10), "-%d" % r.randrange(1, 1000), "%d+%d" % (UMAX, r.randrange(1, 9)), "2^63*2", "1<<64", "0x1%016x" % r.getrandbits(64),
+                        "(%d" % b, "%d)" % b, "%d/0" % b, "%d %d" % (a, b), "~0+1", "3^41", "18446744073709551616", "99999999999999999999"])
+        where = r.randrange(3)
+        args = [bad] if where == 0 else ([expr_for(r, a), bad] if where == 1 else [bad, expr_for(r, b)])
+        add("reject-number", args + r.choice([[], ["-q"], ["-c2"], ["--no-status"]]), "exp=reject")
+        dd = r.choice(["2^64", str(UMAX - a + 1), "-1", "0-1", "1e20", str(2**64 - a) if a > 0 else "2^64"])
+        add("reject-dist", [expr_for(r, a), r.choice(["-d", "--dist"]), dd], "exp=reject")
+    # informational main options: exit status 0
+    for a in [["--help"], ["-h"], ["--version"], ["-v"], ["--cpu-info"]]:
+        add("other", a, "exp=other")
+    add("other", [], "exp=any")
+    # value-taking spellings that swallow the next argument, odd but accepted forms: model vs implementation
+    for a in [["-c", "100"], ["100", "-c", "2"], ["-p", "100"], ["100", "-p", "2", "-q"], ["1", "2", "3"], ["100", "-c", "-q"], ["100", "--count=0x2"],
+              ["100", "--count=1+1"], ["100", "-t", "2*2"], ["100", "--number", "200", "-q"], ["--number=5", "--number=50", "-q"], ["100", "-q", "-q", "--quiet"],
+              ["50", "-d", "50", "-d", "10", "-q"], ["-d", "50", "-q"], ["100", "-p", "-c", "-q"], ["100", "--print", "--count=2"], ["100", "--timeout=5m", "-q"],
+              ["100", "--timeout", "10", "-q"], ["10", "100", "-n", "-q"], ["100", "-s", "-5", "-q"], ["100", "-t", "-3", "-q"]]:
+        add("odd-accepted", a, "exp=any")
+    return ops
+
+CLI = register(Stream(
+    "cli", gen_cli,
+    rule=("cases = one run of the primesieve binary per argument vector: (a) START/STOP/-d DIST written as arithmetic "
+          "expressions with a known exact value, all spellings of -c/-p/-t/-s/-q/--no-status/--time in random order: stdout "
+          "(status, timing and settings lines removed) must equal what the LIBRARY returns for the intended interval and kinds "
+          "(count_* called in the harness, printed lines from the harness oracle) and the Lean model Cli.mainAction + count/print "
+          "model; (b) -n with n / start incl. failures at the top of the range; (c) command lines that must be rejected "
+          "(unknown / value-less / conflicting options, negative numbers, malformed expressions, value or intermediate >= 2^64, "
+          "START+DIST >= 2^64, n too large): exit status 1 and no result on stdout; (d) informational options; (e) odd but "
+          "accepted spellings (model vs implementation only); an exit status other than 0/1 (signal, sanitizer) is a "
+          "violation; non-trivial = every case; distinct by the full line"),
+    nontrivial=None))
